@@ -193,6 +193,15 @@ class ParProp(props.BaseProp):
         if neg is not None:
             # (the main stream has been consumed exactly as without the variant)
             out, calls, wmode = out_neg, calls_neg, "neg"
+            # a second component without negative weights: a path a - b - c (both directions) on three fresh names. The
+            # searches from the first component may fail (ContradictoryPaths); what `involving` answers for b must
+            # then be the same on the serial route and under every pool
+            a = n
+            names = names + [a, a + 1, a + 2]
+            n = n + 3
+            out = out + [(a, a + 1, bits(1.0)), (a + 1, a + 2, bits(1.0))] + \
+                ([(a + 1, a, bits(1.0)), (a + 2, a + 1, bits(1.0))] if directed else [])
+            calls = calls + ["involving 1 %d" % (a + 1), "involving 0 %d" % (a + 1)]
         return {"kind": "graph", "directed": directed, "n": n, "names": names, "edges": out, "calls": calls,
                 "wmode": wmode}
 
